@@ -239,7 +239,8 @@ void NonPositiveVisitor::bvisit(const Symbol &x)
 
 void NonPositiveVisitor::bvisit(const Number &x)
 {
-    if (is_a_Complex(x)) {
+    if (is_a_Complex(x) or is_a<NaN>(x) or x.is_complex()) {
+        // nan and complex infinity are not ordered
         is_nonpositive_ = tribool::trifalse;
     } else if (bool(x.is_positive())) {
         is_nonpositive_ = tribool::trifalse;
@@ -363,7 +364,8 @@ void NonNegativeVisitor::bvisit(const Symbol &x)
 
 void NonNegativeVisitor::bvisit(const Number &x)
 {
-    if (is_a_Complex(x)) {
+    if (is_a_Complex(x) or is_a<NaN>(x) or x.is_complex()) {
+        // nan and complex infinity are not ordered
         is_nonnegative_ = tribool::trifalse;
     } else if (bool(x.is_negative())) {
         is_nonnegative_ = tribool::trifalse;
